@@ -95,13 +95,49 @@ def translate_close_paths(repo):
                 ool.append("DlClose")
             else:
                 raise Untranslatable("ffi_dlclose: statement outside the subset: %r" % (st,))
+        # does the closed test (with its return) precede dlsym() in every access path?
+        from props import c29
+
+        def checks_first(path, header, is_test):
+            text = c29._strip_comments(open(path).read())
+            stmts = c29._Stmts(c29._tokens(c29._function_body(text, header))).all()
+            first_dlsym = next((i for i, st in enumerate(stmts) if "dlsym" in _flat(st)), None)
+            if first_dlsym is None:
+                raise Untranslatable("%s: no dlsym() call" % header)
+            return any(is_test(st) for st in stmts[:first_dlsym])
+
+        def _flat(st):
+            if st[0] in ("expr", "return"):
+                return st[1]
+            return list(st[1]) + [t for part in st[2:] for x in part for t in _flat(x)]
+
+        def returns_null(st):
+            return any(x[0] == "return" and x[1] == ["NULL"] for x in st[2])
+        ool_first = checks_first(
+            os.path.join(repo, "src", "c", "cdlopen.c"), "static void *cdlopen_fetch(PyObject *libname, void *libhandle,",
+            lambda st: st[0] == "if" and "".join(st[1]) == "libhandle==NULL" and returns_null(st))
+        inline_first = all(checks_first(
+            os.path.join(repo, "src", "c", "_cffi_backend.c"),
+            "static PyObject *%s(DynLibObject *dlobj, PyObject *args)" % fn,
+            lambda st: st[0] == "if" and "".join(st[1]) == "dl_check_closed(dlobj)<0" and returns_null(st))
+            for fn in ("dl_load_function", "dl_read_variable", "dl_write_variable"))
+        # ... and dl_check_closed must be the NULL-handle test
+        body = c29._function_body(c29._strip_comments(open(os.path.join(repo, "src", "c", "_cffi_backend.c")).read()),
+                                  "static int dl_check_closed(DynLibObject *dlobj)")
+        cst = c29._Stmts(c29._tokens(body)).all()
+        if not (cst and cst[0][0] == "if" and "".join(cst[0][1]) == "dlobj->dl_handle==NULL"
+                and any(x[0] == "return" and x[1] == ["-", "1"] for x in cst[0][2])):
+            inline_first = False
     except (OSError, SyntaxError) as e:
         raise Untranslatable(str(e))
     head = open(GEN + ".snapshot").read().split("Definition inline_close")[0]
     return head + ("Definition inline_close : list cstep := [ %s ].\n"
                    "Definition backend_close_lib : list cstep := [ %s ].\n"
                    "Definition ool_close : list cstep := [ %s ].\n"
-                   % ("; ".join(inline), "; ".join(backend), "; ".join(ool)))
+                   "Definition ool_fetch_checks_first : bool := %s.\n"
+                   "Definition inline_checks_first : bool := %s.\n"
+                   % ("; ".join(inline), "; ".join(backend), "; ".join(ool),
+                      "true" if ool_first else "false", "true" if inline_first else "false"))
 
 
 def regen(ctx):
@@ -120,7 +156,15 @@ def gen_desc(rng):
         fns.append([rng.choice(["get", "set"]), rng.choice(nonstruct)])
     consts = [rng.choice([0, 1, -1, 42, 2 ** 31, -2 ** 31 - 1, 2 ** 63 - 1, rng.randrange(-1000, 1000)])
               for _ in range(rng.choice([1, 2, 3]))]
-    return dict(vars=vs, fns=fns, consts=consts)
+    return dict(vars=vs, fns=fns, consts=consts, global_guard=rng.random() < 0.5)
+
+
+def libc_desc(rng):
+    """lib objects opened on None (the process): libc's int variables optind/opterr and five libc functions that
+    are only ever FETCHED (never called through the model)"""
+    i32 = ["int", -2 ** 31, 2 ** 31 - 1]
+    return dict(libc=True, vars=[list(i32), list(i32)], fns=[["get", 0]] * 5,
+                consts=[rng.randrange(-1000, 1000)], global_guard=False)
 
 
 def rand_val(rng, lo, hi, wraps=False):
@@ -154,6 +198,8 @@ def gen_history(rng, desc, desc_id):
             closed.add(l)
             continue
         kind = rng.choice(["read", "read", "write", "write", "fetch", "call", "call", "const", "addr"])
+        if kind == "call" and desc.get("libc"):
+            kind = "fetch"
         if kind in ("read", "addr"):
             ops.append([kind, l, nv + rng.randrange(2) if undecl else rng.randrange(nv)])
         elif kind == "write":
@@ -178,10 +224,10 @@ def directed(desc, desc_id, mode):
     for v in range(nv):
         every += [["read", 0, v], ["write", 0, v, desc["vars"][v][2]], ["addr", 0, v]]
     for f in range(nf):
-        every += [["fetch", 0, f], ["call", 0, f, 1]]
+        every += [["fetch", 0, f]] + ([] if desc.get("libc") else [["call", 0, f, 1]])
     for c in range(nc):
         every += [["const", 0, c]]
-    other = [["read", 1, 0], ["call", 1, 0, 1]]
+    other = [["read", 1, 0], ["fetch", 1, 0] if desc.get("libc") else ["call", 1, 0, 1]]
     ops = every[: len(every) // 2] + [["close", 0]] + every + other + [["close", 0]] + every + [["close", 1]] + other
     return dict(desc_id=desc_id, desc=desc, m0=[0] * nv, modes=[mode, "ool" if mode == "inline" else "inline"],
                 ops=ops, fresh_ffi=False)
@@ -192,8 +238,8 @@ def generate(ctx):
     cases = []
     ndesc = ctx.n(3, 10)
     per = ctx.n(50, 200)
-    for d in range(ndesc):
-        desc = gen_desc(rng)
+    for d in range(ndesc + 1):
+        desc = gen_desc(rng) if d < ndesc else libc_desc(rng)
         cases.append(directed(desc, d, "inline"))
         cases.append(directed(desc, d, "ool"))
         for _ in range(per):
@@ -421,6 +467,8 @@ def evaluate(ctx, cases):
             ctx.nontrivial((case["desc"], case["modes"], case["ops"]))
         ctx.hist("ops", len(case["ops"]))
         ctx.hist("libs", ",".join(sorted(case["modes"])))
+        ctx.hist("library", "libc (dlopen(None))" if case["desc"].get("libc") else
+                 "own .so, guard RTLD_GLOBAL" if case["desc"].get("global_guard") else "own .so, guard local")
         ctx.hist("after_close_accesses", min(after, 20))
         for o in res["outs"]:
             ctx.hist("out", o[0] if o[0] != "err" else "err:" + o[1])
@@ -447,7 +495,10 @@ def run(ctx):
                        "(in-line and out-of-line mixed) opened on one gcc-compiled library (1-4 integer globals of "
                        "13 C types incl. enum-typed, pointer-typed and struct-typed globals, getter/setter functions, #define constants), 60% of the operations after the "
                        "first close aimed at closed libs, 4% undeclared names, 15% out-of-range values; plus a "
-                       "directed history per library and mode touching every name before and after close. "
+                       "directed history per library and mode touching every name before and after close. Half of the "
+                       "libraries have their guard handle opened RTLD_GLOBAL (symbols resolvable through dlsym(NULL, ..) "
+                       "after a close); one extra library per run is the process itself (dlopen(None): libc's "
+                       "optind/opterr and never-called libc functions). "
                        "Non-trivial = history with at least one access to a lib after its close; distinct by "
                        "(library, modes, ops). evaluations = operations executed on the implementation.")
     ctx.assumptions += [
